@@ -77,6 +77,9 @@ func expandC12(_ *testing.T, seed uint64, tier string) []*core.Plan {
 	p.SetKnob("gate", r.Pick(0, 0, 1))
 	p.SetKnob("variant", r.Intn(4))
 	p.SetKnob("race", r.Intn(3)) // keep-alive: traffic racing the deadline
+	if r.Chance(1, 6) {
+		p.SetKnob("fullq", 1) // the online observer's session queue is full when the will is published
+	}
 	p.Yield = r.Pick(0, 0, 0, 8)
 	p.Items = []core.Item{{K: "scenario", S: causeNames[cause], T: stateNames[state]}}
 	return []*core.Plan{p}
@@ -98,6 +101,10 @@ func runC12(t *testing.T, p *core.Plan) *core.Result {
 	}
 	if state == sTokenBlocked {
 		cfg.ParPublishes = 1
+	}
+	fullq := p.Knob("fullq", 0) == 1 && cause != cBackendClose && cause != cTokenTimeout && cause != cKeepAlive && state != sTokenBlocked && state != sInboundQ1
+	if fullq {
+		cfg.QueueSize, cfg.Inflight = 1, 1
 	}
 	if cause == cSetupFails {
 		// the subject's Setup is the third one (two observers connect first)
@@ -129,6 +136,19 @@ func runC12(t *testing.T, p *core.Plan) *core.Result {
 		w.Settle()
 		helper := connect("helper", true) // publishes towards the subject
 		w.Settle()
+		if fullq {
+			// one message in flight and unacknowledged, one in the queue: the
+			// online observer's queue (capacity 1) is full
+			o1.AckMode = 1
+			for i := 0; i < 2; i++ {
+				pb := packet.NewPublish()
+				pb.ID = helper.NextID()
+				pb.Message = packet.Message{Topic: "w/fill", QOS: 1, Payload: MsgPayload(50+i, 0)}
+				helper.Send(pb)
+			}
+			w.Settle()
+			res.Count("observer_queue_full", 1)
+		}
 
 		// the subject
 		if cause == cSetupFails {
@@ -308,6 +328,21 @@ func runC12(t *testing.T, p *core.Plan) *core.Result {
 		if !s.EOF {
 			s.Drop()
 			w.Settle()
+		}
+		if fullq {
+			// the observer now acknowledges: room appears and the waiting will goes through
+			for round := 0; round < 10; round++ {
+				pend := o1.Pending
+				o1.Pending = nil
+				for _, x := range pend {
+					o1.Send(x)
+				}
+				w.Settle()
+				if len(o1.Pending) == 0 {
+					break
+				}
+			}
+			o1.AckMode = 0
 		}
 		w.Advance(6 * time.Second) // kill timeouts etc.
 		// observer 2 resumes, observer 3 subscribes afterwards
